@@ -47,7 +47,7 @@ type PathResult struct {
 	Harness      string        `json:"harness"`
 	Prefix       []int         `json:"prefix"`
 	Decisions    []int         `json:"decisions"`
-	Alternatives [][]int       `json:"alternatives"`
+	Alternatives []Alt         `json:"alternatives"`
 	Outcome      string        `json:"outcome"` // ok | infeasible | panic | deadlock | budget | engine-error | assume-false
 	Detail       string        `json:"detail,omitempty"`
 	Obligations  []Obligation  `json:"obligations"`
@@ -60,6 +60,7 @@ type PathResult struct {
 	Forks        int           `json:"forks"`
 	Queries      int           `json:"queries"`
 	SolverMs     float64       `json:"solver_ms"`
+	WallMs       float64       `json:"wall_ms"`
 	Instrs       int64         `json:"instrs"`
 	Uncertain    bool          `json:"uncertain,omitempty"`
 	OutOfModel   []string      `json:"out_of_model,omitempty"`
@@ -81,9 +82,10 @@ type pathCtx struct {
 	tt        *termTable
 	sol       *solver
 	prefix    []int
-	pos       int
 	decisions []int
-	alts      [][]int
+	alts      []Alt
+	curModel  modelT
+	memo      map[int32]uint64
 	inputs    []InputRec
 	inputVars [][]*Term // per input, its variables
 	res       *PathResult
@@ -134,7 +136,47 @@ func (c *pathCtx) addPC(t *Term) {
 	c.sol.assert(t)
 }
 
-// branch decides a symbolic condition, forking if both sides are feasible.
+// Alt is an unexplored alternative: a decision prefix together with a model
+// (values of the input variables) that satisfies its path condition.
+type Alt struct {
+	Prefix []int             `json:"prefix"`
+	Model  map[string]uint64 `json:"model,omitempty"`
+}
+
+// evalBool evaluates a Bool term under the current model.
+func (c *pathCtx) evalUnderModel(t *Term) uint64 {
+	if c.memo == nil {
+		c.memo = map[int32]uint64{}
+	}
+	return t.eval(c.curModel, c.memo)
+}
+
+// fetchModel reads the values of all input variables after a sat answer.
+func (c *pathCtx) fetchModel() modelT {
+	var vars []*Term
+	for _, vs := range c.inputVars {
+		vars = append(vars, vs...)
+	}
+	m := c.sol.values(vars)
+	if m == nil {
+		return nil
+	}
+	return m
+}
+
+func (c *pathCtx) setModel(m modelT) {
+	c.curModel = m
+	c.memo = nil
+}
+
+func (c *pathCtx) pushAlt(last []int, m modelT) {
+	pre := append(append([]int(nil), c.decisions...), last...)
+	c.alts = append(c.alts, Alt{Prefix: pre, Model: m})
+}
+
+// branch decides a symbolic condition. The path keeps a model of its path
+// condition and always follows the side that model satisfies, so only the
+// other side needs a solver query.
 func (c *pathCtx) branch(cond *Term) bool {
 	if cond.op == oTrue {
 		return true
@@ -142,9 +184,8 @@ func (c *pathCtx) branch(cond *Term) bool {
 	if cond.op == oFalse {
 		return false
 	}
-	if c.pos < len(c.prefix) {
-		d := c.prefix[c.pos]
-		c.pos++
+	if len(c.decisions) < len(c.prefix) {
+		d := c.prefix[len(c.decisions)]
 		c.recordDecision(d)
 		if d == 1 {
 			c.addPC(cond)
@@ -153,36 +194,60 @@ func (c *pathCtx) branch(cond *Term) bool {
 		}
 		return d == 1
 	}
-	c.pos++
 	c.res.Forks++
-	rt := c.sol.check(cond, false)
-	var rf satResult
-	if rt == resUnsat {
-		rf = resSat // PC is satisfiable by invariant
-	} else {
-		rf = c.sol.check(cond, true)
+	if c.curModel == nil {
+		// no model (after an inconclusive query): decide both sides
+		rt := c.sol.check(cond, false)
+		if rt == resSat {
+			c.setModel(c.fetchModel())
+		}
+		if rt == resUnknown {
+			c.res.Uncertain = true
+		}
+		if rt == resUnsat {
+			c.recordDecision(0)
+			c.addPC(c.tt.Not(cond))
+			return false
+		}
+		rf := c.sol.check(cond, true)
+		if rf != resUnsat {
+			var m modelT
+			if rf == resSat {
+				m = c.fetchModel()
+			} else {
+				c.res.Uncertain = true
+			}
+			c.pushAlt([]int{0}, m)
+		}
+		c.recordDecision(1)
+		c.addPC(cond)
+		return true
 	}
-	if rt == resUnknown || rf == resUnknown {
+	side := c.evalUnderModel(cond) != 0
+	other := c.sol.check(cond, side) // side true: check (not cond)
+	switch other {
+	case resSat:
+		d := 1
+		if side {
+			d = 0
+		}
+		c.pushAlt([]int{d}, c.fetchModel())
+	case resUnknown:
 		c.res.Uncertain = true
+		d := 1
+		if side {
+			d = 0
+		}
+		c.pushAlt([]int{d}, nil)
 	}
-	switch {
-	case rt != resUnsat && rf != resUnsat:
-		alt := append(append([]int(nil), c.decisions...), 0)
-		c.alts = append(c.alts, alt)
+	if side {
 		c.recordDecision(1)
 		c.addPC(cond)
-		return true
-	case rt != resUnsat:
-		c.recordDecision(1)
-		c.addPC(cond)
-		return true
-	case rf != resUnsat:
+	} else {
 		c.recordDecision(0)
 		c.addPC(c.tt.Not(cond))
-		return false
 	}
-	c.abort("infeasible", "both sides of a branch unsatisfiable")
-	return false
+	return side
 }
 
 // choose is an unconditioned n-way fork.
@@ -193,23 +258,23 @@ func (c *pathCtx) choose(n int) int {
 	if n == 1 {
 		return 0
 	}
-	if c.pos < len(c.prefix) {
-		d := c.prefix[c.pos]
-		c.pos++
+	if len(c.decisions) < len(c.prefix) {
+		d := c.prefix[len(c.decisions)]
 		c.recordDecision(d)
 		return d
 	}
-	c.pos++
 	c.res.Forks++
 	for k := n - 1; k >= 1; k-- {
-		alt := append(append([]int(nil), c.decisions...), k)
-		c.alts = append(c.alts, alt)
+		c.pushAlt([]int{k}, c.curModel)
 	}
 	c.recordDecision(0)
 	return 0
 }
 
 // concretize forks over the feasible values of t (must be a small domain).
+// All feasible values are enumerated once with the solver (model, block,
+// repeat); each becomes one alternative carrying its own model. A decision
+// v+2 means "t == v".
 func (c *pathCtx) concretize(t *Term, why string) uint64 {
 	if t.op == oConst {
 		return t.k
@@ -220,64 +285,83 @@ func (c *pathCtx) concretize(t *Term, why string) uint64 {
 		}
 		return 0
 	}
-	for iter := 0; ; iter++ {
-		if iter > 4096 {
-			c.abort("engine-error", "concretize: domain too large: "+why)
-		}
-		var v uint64
-		if c.pos < len(c.prefix) {
-			// replaying: the value was stored in the prefix as 2+value marker
-			d := c.prefix[c.pos]
-			if d >= 2 {
-				c.pos++
-				c.recordDecision(d)
-				v = uint64(d - 2)
-				c.addPC(c.tt.Cmp(oEq, t, c.tt.Const(v, t.w)))
-				return v
-			}
-			// d==0 means "not the previously tried value": we must replay the
-			// rejected value as well; it is stored right after.
-			c.pos++
-			c.recordDecision(0)
-			rej := uint64(c.prefix[c.pos] - 2)
-			c.pos++
-			c.recordDecision(int(rej) + 2)
-			c.addPC(c.tt.Not(c.tt.Cmp(oEq, t, c.tt.Const(rej, t.w))))
-			continue
-		}
-		// ask the solver for some value
-		r := c.sol.check(nil, false)
-		if r != resSat {
-			c.res.Uncertain = true
-			c.abort("infeasible", "concretize: no model: "+why)
-		}
-		c.sol.define(t)
-		m := c.sol.values([]*Term{t})
-		if m == nil {
-			c.abort("engine-error", "concretize: no value")
-		}
-		for _, x := range m {
-			v = x
-		}
-		if v > 1<<30 {
-			c.abort("engine-error", fmt.Sprintf("concretize: value too large (%d): %s", v, why))
-		}
-		eq := c.tt.Cmp(oEq, t, c.tt.Const(v, t.w))
-		c.res.Forks++
-		// is another value possible?
-		other := c.sol.check(eq, true)
-		if other != resUnsat {
-			if other == resUnknown {
-				c.res.Uncertain = true
-			}
-			alt := append(append([]int(nil), c.decisions...), 0, int(v)+2)
-			c.alts = append(c.alts, alt)
-		}
-		c.pos++
-		c.recordDecision(int(v) + 2)
-		c.addPC(eq)
+	if len(c.decisions) < len(c.prefix) {
+		d := c.prefix[len(c.decisions)]
+		c.recordDecision(d)
+		v := uint64(d - 2)
+		c.addPC(c.tt.Cmp(oEq, t, c.tt.Const(v, t.w)))
 		return v
 	}
+	c.res.Forks++
+	const limit = 4096
+	type cand struct {
+		v uint64
+		m modelT
+	}
+	var cands []cand
+	c.sol.define(t)
+	c.sol.sendRaw("(push 1)")
+	for {
+		r := c.sol.check(nil, false)
+		if r == resUnsat {
+			break
+		}
+		if r != resSat {
+			c.res.Uncertain = true
+			break
+		}
+		m := c.fetchModelWith(t)
+		if m == nil {
+			c.sol.sendRaw("(pop 1)")
+			c.abort("engine-error", "concretize: no model values")
+		}
+		v := m["\x00t"]
+		delete(m, "\x00t")
+		cands = append(cands, cand{v, m})
+		if len(cands) > limit {
+			c.sol.sendRaw("(pop 1)")
+			c.abort("engine-error", fmt.Sprintf("concretize: more than %d values: %s", limit, why))
+		}
+		c.sol.sendRaw("(assert (not (= " + t.ref() + " " + smtConst(v, t.w) + ")))")
+	}
+	c.sol.sendRaw("(pop 1)")
+	if len(cands) == 0 {
+		c.abort("infeasible", "concretize: no value: "+why)
+	}
+	// deterministic order
+	sort.Slice(cands, func(i, j int) bool { return cands[i].v < cands[j].v })
+	for _, k := range cands[1:] {
+		if k.v > 1<<30 {
+			c.abort("engine-error", fmt.Sprintf("concretize: value too large (%d): %s", k.v, why))
+		}
+		c.pushAlt([]int{int(k.v) + 2}, k.m)
+	}
+	first := cands[0]
+	if first.v > 1<<30 {
+		c.abort("engine-error", fmt.Sprintf("concretize: value too large (%d): %s", first.v, why))
+	}
+	c.recordDecision(int(first.v) + 2)
+	c.addPC(c.tt.Cmp(oEq, t, c.tt.Const(first.v, t.w)))
+	c.setModel(first.m)
+	return first.v
+}
+
+// fetchModelWith returns the input model plus the value of t under key "\x00t".
+func (c *pathCtx) fetchModelWith(t *Term) modelT {
+	var vars []*Term
+	for _, vs := range c.inputVars {
+		vars = append(vars, vs...)
+	}
+	vars = append(vars, t)
+	m := c.sol.values(vars)
+	if m == nil {
+		return nil
+	}
+	m["\x00t"] = m[t.ref()]
+	if t.op != oVar {
+		delete(m, t.ref())
+	}
+	return m
 }
 
 func (c *pathCtx) freshVar(name string, w uint8) *Term {
@@ -288,7 +372,11 @@ func (c *pathCtx) freshVar(name string, w uint8) *Term {
 		}
 		return '_'
 	}, name)
-	return c.tt.Var(fmt.Sprintf("v%d_%s", c.nvars, clean), w)
+	v := c.tt.Var(fmt.Sprintf("v%d_%s", c.nvars, clean), w)
+	// declare now, in the path's own solver scope: a declaration made later
+	// inside a temporary push/pop scope would be lost with it
+	c.sol.define(v)
+	return v
 }
 
 func (c *pathCtx) posString() string {
@@ -311,17 +399,21 @@ func shortFile(f string) string {
 // model returns concrete input values satisfying the current path condition
 // (plus an optional extra assumption).
 func (c *pathCtx) model(extra *Term, neg bool) ([]InputRec, bool) {
-	r := c.sol.check(extra, neg)
-	if r != resSat {
-		return nil, false
-	}
-	var vars []*Term
-	for _, vs := range c.inputVars {
-		vars = append(vars, vs...)
-	}
-	m := c.sol.values(vars)
-	if m == nil {
-		return nil, false
+	var m modelT
+	if extra == nil && c.curModel != nil {
+		m = c.curModel
+	} else {
+		r := c.sol.check(extra, neg)
+		if r != resSat {
+			return nil, false
+		}
+		m = c.fetchModel()
+		if m == nil {
+			return nil, false
+		}
+		if extra == nil {
+			c.setModel(m)
+		}
 	}
 	out := make([]InputRec, len(c.inputs))
 	copy(out, c.inputs)
@@ -398,8 +490,17 @@ func (c *pathCtx) assertObl(cond value, label string) {
 			c.res.Obligations = append(c.res.Obligations, Obligation{Label: label, Status: "inconclusive", Pos: pos, Detail: x.String()})
 		}
 		// continue under the assumption that the assertion held, if possible
-		if c.sol.check(x, false) == resUnsat {
-			c.abort("assert-failed", label)
+		if r != resUnsat {
+			if c.curModel == nil || c.evalUnderModel(x) == 0 {
+				switch c.sol.check(x, false) {
+				case resUnsat:
+					c.abort("assert-failed", label)
+				case resSat:
+					c.setModel(c.fetchModel())
+				default:
+					c.setModel(nil)
+				}
+			}
 		}
 		c.addPC(x)
 	default:
@@ -415,13 +516,24 @@ func (c *pathCtx) assume(cond value) {
 			c.abort("assume-false", "")
 		}
 	case *Term:
-		if c.pos < len(c.prefix) {
-			// replay: still cheap to just assert
+		if len(c.decisions) < len(c.prefix) {
+			// replay: the prefix's model already satisfies the assumption
 			c.addPC(x)
 			return
 		}
-		if c.sol.check(x, false) == resUnsat {
-			c.abort("assume-false", "")
+		if c.curModel == nil || c.evalUnderModel(x) == 0 {
+			switch c.sol.check(x, false) {
+			case resUnsat:
+				c.abort("assume-false", "")
+			case resSat:
+				m := c.fetchModel()
+				c.addPC(x)
+				c.setModel(m)
+				return
+			default:
+				c.res.Uncertain = true
+				c.setModel(nil)
+			}
 		}
 		c.addPC(x)
 	}
